@@ -19,7 +19,8 @@
      - HandleIsoAddressClaim does not treat the placeholder itself as "the same device on another address" (NAME 0 claim; use after free)
      - HandleConfigurationInformation measures the strings through a scratch buffer (GetVarStr reports no size for a null buffer) and
        InitConfigurationInformation recomputes the field pointers also when it re-uses the buffer
-     - ParseN2kPGN126996 refuses payloads shorter than the 134 bytes of product information. *)
+     - ParseN2kPGN126996 refuses payloads shorter than the 134 bytes of product information
+     - the constructor of tInternalDevice initialises LastMessageTime (it was read uninitialised for a placeholder entry). *)
 From Coq Require Import ZArith List Bool.
 From N2kV Require Import Base.Res Base.ListAux Model.TextDefs.
 Import ListNotations ResNotations.
@@ -78,10 +79,10 @@ Record entry := {
   e_tx : option (list Z); e_rx : option (list Z);
   e_nname : Z; e_pireq : Z; e_npi : Z; e_cireq : Z; e_nci : Z; e_pgreq : Z; e_npg : Z; e_lmt : Z }.
 
-Definition new_entry (name now:Z) : entry :=         (* tInternalDevice(_Name): Source 255, CreateTime = N2kMillis() *)
+Definition new_entry (name now:Z) : entry :=         (* tInternalDevice(_Name): Source 255, CreateTime = LastMessageTime = N2kMillis() *)
   {| e_name := name; e_src := 255; e_ctime := now; e_pil := false; e_pi := pi_clear; e_cil := false; e_confi := None;
      e_man := None; e_d1 := None; e_d2 := None; e_tx := None; e_rx := None;
-     e_nname := 0; e_pireq := 0; e_npi := 0; e_cireq := 0; e_nci := 0; e_pgreq := 0; e_npg := 0; e_lmt := 0 |}.
+     e_nname := 0; e_pireq := 0; e_npi := 0; e_cireq := 0; e_nci := 0; e_pgreq := 0; e_npg := 0; e_lmt := now |}.
 
 Definition with_src (e:entry) (s:Z) : entry :=
   {| e_name := e_name e; e_src := s; e_ctime := e_ctime e; e_pil := e_pil e; e_pi := e_pi e; e_cil := e_cil e; e_confi := e_confi e;
